@@ -210,6 +210,8 @@ def _scenario(fx, body, seg, dc, rk, m, must_raise, what, checksummed_only=False
                 return _fail("%s: delivered %r which is not a prefix of %r" % (what, got, exp))
         # ---- the connection that carried a broken response is closed and never reused ----
         broken = raised is not None or must_raise
+        if not broken:
+            return True
         s0 = netw.socks[0]
         if resp is not None:
             resp.release_conn()
@@ -252,7 +254,7 @@ def _corrupt_body(i, v, seg, dc, rk, m):
     rk = concretize(rk)
     pos = P.positions[i]
     old = fx.body[pos]
-    new = P.values[v]
+    new = P.vals[v]
     if new == old:
         return True
     body = fx.body[:pos] + bytes([new]) + fx.body[pos + 1:]
@@ -279,7 +281,7 @@ def _scenario_sizeline(fx, body, seg, dc, rk, m, must, what):
 
 def c13_corrupt(i: int, v: int, seg: int, dc: bool, rk: int, m: int) -> bool:
     """
-    pre: 0 <= i < len(P.positions) and 0 <= v < len(P.values)
+    pre: 0 <= i < len(P.positions) and 0 <= v < len(P.vals)
     pre: seg in P.segs and dc in P.dcs and rk in P.rks and 1 <= m <= P.mmax
     pre: (dc or rk != 6) and (m == 1 or rk in (1, 2, 3, 4, 5))
     post: _
@@ -325,7 +327,9 @@ def _length_body(form, n, mm, chunked, status_i, head):
             # http.client itself refuses some header blocks before urllib3 sees them: nothing was delivered
             mark("http.client refused")
             return True
-        bodyless = head or status in (204, 304)
+        # with Transfer-Encoding: chunked http.client's own chunk reader decides (it reads a chunked body even on 204/304):
+        # outside urllib3, not asserted
+        bodyless = (head or status in (204, 304)) and not chunked
         if conflicting and not chunked:
             if not isinstance(raised, InvalidHeader):
                 return _fail("Content-Length %r accepted (raised=%r)" % (cl, raised))
@@ -364,13 +368,12 @@ def c13_length(form: int, n: int, mm: int, chunked: bool, status_i: int, head: b
     return run(_length_body, form, n, mm, chunked, status_i, head)
 
 
-QUICK_FIX = ["cl/identity/5", "chunked/identity/5/1-2", "cl/gzip/17", "chunked/gzip/17/5", "chunked/zstd2/17/3-11",
-             "close/deflate/17", "cl/zstd2/17", "cl/identity/0", "chunked/identity/0"]
+QUICK_FIX = ["cl/identity/5", "chunked/identity/5/1-2", "cl/gzip/17", "chunked/zstd2/17/3-11", "close/zstd/17", "chunked/identity/0"]
 
 
 def JOBS(tier):
     quick = tier == "quick"
-    t = 200 if quick else 1500
+    t = 150 if quick else 900
     jobs = []
     for fx in FIXTURES:
         if quick and fx.name not in QUICK_FIX:
@@ -380,33 +383,36 @@ def JOBS(tier):
         rks = [R_READ, R_LOOP_READ, R_LOOP_READ1, R_LOOP_READINTO, R_STREAM, R_ITER, R_READ1_ALL, R_PRELOAD, R_DATA, R_DRAIN] + \
               ([R_READ_CHUNKED] if chunked else [])
         dcs = [True, False] if fx.coding != "identity" else [True]
-        segs = [1, W + 1] if quick else sorted({1, 3, W + 1})
+        segs = [1] if quick else [1, W + 1]
+        if quick:
+            dcs = dcs[:1]
         # partition the cut range over processes
-        step = max(1, (W + 1) // (4 if quick else 8) + 1)
+        step = max(1, (W + 1) // (3 if quick else 6) + 1)
         lo = 0
         while lo <= W:
             hi = min(W, lo + step - 1)
-            for grp in ([rks] if quick else [[r] for r in rks]):
+            for grp in ([rks[:5], rks[5:]] if quick else [[r] for r in rks]):
                 jobs.append({"func": "c13_cut", "timeout": t, "path_timeout": 60, "samples": 1,
                              "part": {"fixture": fx.name, "cmin": lo, "cmax": hi, "segs": segs, "dcs": dcs, "rks": grp,
-                                      "mmax": 2 if quick else 3}})
+                                      "mmax": 2}})
             lo = hi + 1
         # corruptions
-        if chunked:
+        if chunked and (not quick or fx.name == "chunked/identity/5/1-2"):
             pos = _size_line_positions(fx.body)
             vals = [ord("g"), ord("-"), ord(" "), 0, ord("f"), ord("1"), 10, ord(";")]
             jobs.append({"func": "c13_corrupt", "timeout": t, "path_timeout": 60, "samples": 1,
                          "part": {"fixture": fx.name, "kind": "chunkline", "positions": pos if not quick else pos[:6],
-                                  "values": vals if not quick else vals[:5], "segs": segs, "dcs": dcs[:1],
+                                  "vals": vals if not quick else vals[:5], "segs": segs, "dcs": dcs[:1],
                                   "rks": rks if not quick else [R_READ, R_LOOP_READ, R_STREAM, R_READ_CHUNKED, R_PRELOAD, R_LOOP_READ1],
                                   "mmax": 2}})
-        if fx.coding != "identity" and fx.framing == "cl" and (not quick or fx.coding in ("gzip", "zstd2")):
+        if fx.coding != "identity" and fx.framing == "cl" and (not quick or fx.coding in ("gzip",)):
             R = len(fx.raw)
             pos = list(range(R)) if not quick else sorted(set(list(range(0, R, 3)) + [R - 1, R - 5]))
-            jobs.append({"func": "c13_corrupt", "timeout": t, "path_timeout": 60, "samples": 1,
-                         "part": {"fixture": fx.name, "kind": "stream", "positions": pos, "values": [0x00, 0xFF, 0x41] if not quick else [0xFF],
-                                  "segs": segs, "dcs": [True],
-                                  "rks": rks if not quick else [R_READ, R_LOOP_READ, R_STREAM, R_PRELOAD, R_LOOP_READ1], "mmax": 2}})
+            for grp in ([rks] if quick else [[r] for r in rks]):
+                jobs.append({"func": "c13_corrupt", "timeout": t, "path_timeout": 60, "samples": 1,
+                             "part": {"fixture": fx.name, "kind": "stream", "positions": pos, "vals": [0x00, 0xFF, 0x41] if not quick else [0xFF],
+                                      "segs": segs, "dcs": [True],
+                                      "rks": grp if not quick else [R_READ, R_LOOP_READ, R_STREAM, R_PRELOAD, R_LOOP_READ1], "mmax": 2}})
     jobs.append({"func": "c13_length", "timeout": t, "part": {"nmax": 3 if quick else 12}})
     return jobs
 
@@ -431,11 +437,11 @@ def _size_line_positions(body):
 
 
 EVIDENCE = {
-    "bounds": {"quick": "9 fixtures (identity/gzip/zlib/zstd x Content-Length/chunked/close-delimited, 0-17 byte payloads): EVERY cut "
-                        "position of the body wire x segmentation {1, whole} x 10-11 read patterns (m<=2) incl. preload/.data/drain x "
-                        "decode on/off, each followed by a second request on the same pool; single-byte corruption of chunk-size lines "
-                        "(5 values x <=6 positions) and of gzip/zstd streams; Content-Length header forms with symbolic n, m <= 3",
-               "thorough": "all 29 fixtures, every cut, segmentations {1,3,whole}, m<=3, all size-line positions x 8 values, every "
+    "bounds": {"quick": "6 fixtures (identity/gzip/zstd x Content-Length/chunked/close-delimited, 0-17 byte payloads): EVERY cut "
+                        "position of the body wire x byte-wise segmentation x 10-11 read patterns (m<=2) incl. preload/.data/drain, "
+                        "decoding on, each broken response followed by a second request on the same pool; single-byte corruption of "
+                        "chunk-size lines (5 values x 6 positions) and of a gzip stream; Content-Length header forms with symbolic n, m <= 3",
+               "thorough": "all 31 fixtures, every cut, segmentations {1,whole}, decode on/off, all size-line positions x 8 values, every "
                            "stream byte x {0x00,0xFF,0x41}, header integers <= 12"},
     "outside": ["payloads > 40 bytes", "the codecs (C)", "cuts inside the status line / header block (C01, C03 cover those faults)",
                 "multi-byte corruptions"],
